@@ -2,8 +2,10 @@
 
    Transcribed from /repo/comb_spec_searcher:
      combinatorial_class.py  CombinatorialClass.get_function
-     strategies/constructor/disjoint.py   DisjointUnion.get_equation, Complement.get_equation
-     strategies/constructor/cartesian.py  CartesianProduct.get_equation, Quotient.get_equation
+     strategies/constructor/disjoint.py   DisjointUnion.get_equation (repaired, fix FIXHASH_EQ; the method
+                                          before the fix: union_equation_old), Complement.get_equation
+     strategies/constructor/cartesian.py  CartesianProduct.get_equation (repaired; before: product_equation_old),
+                                          Quotient.get_equation
      strategies/rule.py      Rule.get_equation, ReverseRule.get_equation (fallback to the
                              original rule), EquivalenceRule.constructor,
                              EquivalencePathRule.constructor, VerificationRule.get_equation
@@ -96,13 +98,44 @@ Inductive result : Type :=
 | NotImpl                 (* NotImplementedError *)
 | IndexErr.               (* IndexError / malformed descriptor (outside every theorem) *)
 
+(* THE REPAIRED get_equation of DisjointUnion and CartesianProduct (fix FIXHASH_EQ).
+   After the dictionary has been turned into the substitution  child name -> product of the parent
+   variables mapped to it  (both constructors now build it the same way:
+       DisjointUnion:     if child in subs: subs[child] *= var(parent) else: subs[child] = var(parent)
+       CartesianProduct:  subs[child] = subs.get(child, 1) * var(parent)                         ),
+   every parameter of the child that no parent parameter is mapped to is summed out:
+       for arg in rhs_func.args[1:]:
+           if isinstance(arg, sympy.Symbol) and arg.name not in subs: subs[arg.name] = Integer(1) *)
+Definition fix_step (sg : list (Z * expr)) (a : expr) : list (Z * expr) :=
+  match a with
+  | Var v => match alookup v sg with Some _ => sg | None => sg ++ [(v, Const 1)] end
+  | _ => sg
+  end.
+Definition fix_unmapped (f : expr) (sg : list (Z * expr)) : list (Z * expr) :=
+  match f with
+  | Fun _ (_ :: args) => fold_left fix_step args sg
+  | _ => sg
+  end.
+Definition full_subs (f : expr) (ep : list (Z * Z)) : list (Z * expr) := fix_unmapped f (union_subs ep).
+
 (* DisjointUnion.get_equation: res = 0; for rhs_func, ep in zip(rhs_funcs, eps): res += rhs_func.subs(...) *)
 Definition union_equation (lhs : expr) (rhs_funcs : list expr) (eps : list (list (Z * Z))) : result :=
-  Ok lhs (fold_left (fun res fe => Add res (subs (union_subs (snd fe)) (fst fe)))
+  Ok lhs (fold_left (fun res fe => Add res (subs (full_subs (fst fe) (snd fe)) (fst fe)))
                     (combine rhs_funcs eps) (Const 0)).
 
 (* CartesianProduct.get_equation: res = 1; for ep, rhs_func in zip(eps, rhs_funcs): res *= rhs_func.subs(...) *)
 Definition product_equation (lhs : expr) (rhs_funcs : list expr) (eps : list (list (Z * Z))) : result :=
+  Ok lhs (fold_left (fun res ef => Mul res (subs (full_subs (snd ef) (fst ef)) (snd ef)))
+                    (combine eps rhs_funcs) (Const 1)).
+
+(* HISTORY -- the two methods BEFORE the fix: an unmapped child parameter kept its own variable, and the
+   product inverted the dictionary ({child: parent ...}: of several parents of one child parameter only
+   the last survived).  Kept for the refutation theorems and for running the check on a tree that does
+   not have the fix yet. *)
+Definition union_equation_old (lhs : expr) (rhs_funcs : list expr) (eps : list (list (Z * Z))) : result :=
+  Ok lhs (fold_left (fun res fe => Add res (subs (union_subs (snd fe)) (fst fe)))
+                    (combine rhs_funcs eps) (Const 0)).
+Definition product_equation_old (lhs : expr) (rhs_funcs : list expr) (eps : list (list (Z * Z))) : result :=
   Ok lhs (fold_left (fun res ef => Mul res (subs (prod_subs (fst ef)) (snd ef)))
                     (combine eps rhs_funcs) (Const 1)).
 
@@ -118,6 +151,15 @@ Definition complement_equation (lhs : expr) (rhs_funcs : list expr) (eps : list 
 Definition quotient_equation (lhs : expr) (rhs_funcs : list expr) (eps : list (list (Z * Z))) : result :=
   if any_params eps then NotImpl
   else match rhs_funcs with [] => IndexErr | f0 :: rest => Ok lhs (fold_left Div rest f0) end.
+
+(* PROPOSED (findings/c20_reverse_equation_unmapped_child_parameter.diff, not in /repo): Complement / Quotient
+   also refuse when any of the functions carries a parameter -- the literal equation F_c = F_p - .. is only
+   right without parameters (a child parameter nobody is mapped to would stay free on both sides) *)
+Definition has_args (f : expr) : bool := match f with Fun _ (_ :: _ :: _) => true | _ => false end.
+Definition complement_equation_g (lhs : expr) (rhs_funcs : list expr) (eps : list (list (Z * Z))) : result :=
+  if existsb has_args (lhs :: rhs_funcs) then NotImpl else complement_equation lhs rhs_funcs eps.
+Definition quotient_equation_g (lhs : expr) (rhs_funcs : list expr) (eps : list (list (Z * Z))) : result :=
+  if existsb has_args (lhs :: rhs_funcs) then NotImpl else quotient_equation lhs rhs_funcs eps.
 
 (* ------------------------------------------------------------ rules *)
 (* the rule a strategy produced: parent, children, strategy.extra_parameters *)
@@ -179,36 +221,36 @@ Definition path_step (acc : option (list (Z * Z))) (st : bool * list (Z * Z)) : 
 Definition path_eps (ppars : list Z) (steps : list (bool * list (Z * Z))) : option (list (Z * Z)) :=
   fold_left path_step steps (Some (map (fun k => (k, k)) ppars)).
 
-(* Rule.get_equation and its overrides *)
-Definition rule_equation (r : rule) : result :=
+(* Rule.get_equation and its overrides, over the two constructor equations *)
+Definition rule_equation_with (ueq peq ceq qeq : expr -> list expr -> list (list (Z * Z)) -> result) (r : rule) : result :=
   match r with
-  | RUnion o => union_equation (cfun (o_parent o)) (map cfun (o_children o)) (o_eps o)
-  | RProduct o => product_equation (cfun (o_parent o)) (map cfun (o_children o)) (o_eps o)
+  | RUnion o => ueq (cfun (o_parent o)) (map cfun (o_children o)) (o_eps o)
+  | RProduct o => peq (cfun (o_parent o)) (map cfun (o_children o)) (o_eps o)
   | RRevUnion o idx =>
       (* try: Rule.get_equation with the Complement constructor;
          except NotImplementedError: original_rule.get_equation *)
-      match complement_equation (cfun (nth idx (o_children o) (-1)))
+      match ceq (cfun (nth idx (o_children o) (-1)))
               (map cfun (o_parent o :: remove_nth idx (o_children o))) (o_eps o) with
-      | NotImpl => union_equation (cfun (o_parent o)) (map cfun (o_children o)) (o_eps o)
+      | NotImpl => ueq (cfun (o_parent o)) (map cfun (o_children o)) (o_eps o)
       | res => res
       end
   | RRevProduct o idx =>
-      match quotient_equation (cfun (nth idx (o_children o) (-1)))
+      match qeq (cfun (nth idx (o_children o) (-1)))
               (map cfun (o_parent o :: remove_nth idx (o_children o))) (o_eps o) with
-      | NotImpl => product_equation (cfun (o_parent o)) (map cfun (o_children o)) (o_eps o)
+      | NotImpl => peq (cfun (o_parent o)) (map cfun (o_children o)) (o_eps o)
       | res => res
       end
   | REquivUnion o cidx =>
       (* DisjointUnion(comb_class, (child,), (extra_parameters[child_idx],)) *)
-      union_equation (cfun (o_parent o)) [cfun (nth cidx (o_children o) (-1))] [nth cidx (o_eps o) []]
+      ueq (cfun (o_parent o)) [cfun (nth cidx (o_children o) (-1))] [nth cidx (o_eps o) []]
   | REquivRev c p ep =>
       (* Complement(children[0], (comb_class,), 0, (ep,)); no fallback *)
-      complement_equation (cfun c) [cfun p] [ep]
+      ceq (cfun c) [cfun p] [ep]
   | REquivRevProduct _ _ => NotImpl
   | RPath p steps c =>
       match path_eps (pars p) steps with
       | None => NotImpl
-      | Some ep => union_equation (cfun p) [cfun c] [ep]
+      | Some ep => ueq (cfun p) [cfun c] [ep]
       end
   | RPathNoCtor _ _ => NotImpl
   | RAtom c m =>
@@ -217,13 +259,24 @@ Definition rule_equation (r : rule) : result :=
   | RVerified c => Ok (cfun c) (Opaque c)
   end.
 
+(* the code as it is (repaired) / as it was before the fix *)
+Definition rule_equation : rule -> result :=
+  rule_equation_with union_equation product_equation complement_equation quotient_equation.
+Definition rule_equation_old : rule -> result :=
+  rule_equation_with union_equation_old product_equation_old complement_equation quotient_equation.
+(* with the proposed guard of the reverse constructors *)
+Definition rule_equation_guarded : rule -> result :=
+  rule_equation_with union_equation product_equation complement_equation_g quotient_equation_g.
+
 (* CombinatorialSpecification.get_equations: one equation per rule; a rule
    whose equation is not implemented yields  F = NOTIMPLEMENTED(x)  (label -1) *)
-Definition spec_equation (r : rule) : result :=
-  match rule_equation r with
+Definition placeholder (r : rule) (res : result) : result :=
+  match res with
   | NotImpl => Ok (cfun (rule_class r)) (Fun (-1) [Var 0])
   | res => res
   end.
+Definition spec_equation (r : rule) : result := placeholder r (rule_equation r).
+Definition spec_equation_old (r : rule) : result := placeholder r (rule_equation_old r).
 
 End Model.
 
